@@ -982,54 +982,63 @@ impl AArch64Instruction {
         match self {
             // C6.2.13
             AArch64Instruction::Adr => {
+                and_from_slice(dest, &0x9f00_001f_u32.to_le_bytes());
                 mask = ((extracted_value.extract_bit_range(0..2) as u32) << 29)
                     | ((extracted_value.extract_bit_range(2..32) as u32) << 5);
             }
             // C6.2.252, C6.2.254
             AArch64Instruction::Movkz => {
+                and_from_slice(dest, &0xffe0_001f_u32.to_le_bytes());
                 mask = (extracted_value as u32) << 5;
             }
             // C6.2.253, C6.2.254
             AArch64Instruction::Movnz => {
-                // Clear all bits except rd[4:0] and hw[22:21]
-                and_from_slice(dest, &0x0060_001F_u32.to_le_bytes());
+                // Clear all bits except sf[31], rd[4:0] and hw[22:21]
+                and_from_slice(dest, &0x8060_001F_u32.to_le_bytes());
                 let mut value = extracted_value as i64;
                 mask = 0u32;
                 if negative {
                     value = !value;
-                    // MOVN opcode: sf=1, opc=00, fixed=100101
-                    mask |= 0x9280_0000;
+                    // MOVN opcode: opc=00, fixed=100101
+                    mask |= 0x1280_0000;
                 } else {
-                    // MOVZ opcode: sf=1, opc=10, fixed=100101
-                    mask |= 0xd280_0000;
+                    // MOVZ opcode: opc=10, fixed=100101
+                    mask |= 0x5280_0000;
                 }
                 mask |= ((value as u64).extract_bit_range(0..16) as u32) << 5;
             }
             // C6.2.192
             AArch64Instruction::Ldr => {
+                and_from_slice(dest, &0xff00_001f_u32.to_le_bytes());
                 mask = (extracted_value as u32) << 5;
             }
             AArch64Instruction::LdrRegister => {
+                and_from_slice(dest, &0xffc0_03ff_u32.to_le_bytes());
                 mask = (extracted_value as u32) << 10;
             }
             // C6.2.5
             AArch64Instruction::Add => {
+                and_from_slice(dest, &0xffc0_03ff_u32.to_le_bytes());
                 mask = (extracted_value as u32) << 10;
             }
             // C7.2.208, C6.2.383
             AArch64Instruction::LdSt => {
+                and_from_slice(dest, &0xffc0_03ff_u32.to_le_bytes());
                 mask = (extracted_value as u32) << 10;
             }
             // C6.2.438
             AArch64Instruction::TstBr => {
+                and_from_slice(dest, &0xfff8_001f_u32.to_le_bytes());
                 mask = (extracted_value as u32) << 5;
             }
             // C6.2.34
             AArch64Instruction::Bcond => {
+                and_from_slice(dest, &0xff00_001f_u32.to_le_bytes());
                 mask = (extracted_value as u32) << 5;
             }
             // C6.2.33
             AArch64Instruction::JumpCall => {
+                and_from_slice(dest, &0xfc00_0000_u32.to_le_bytes());
                 mask = extracted_value as u32;
             }
             AArch64Instruction::MachOLow12 => {
